@@ -405,6 +405,9 @@ func (r *Run) runMain(g *Goroutine) {
 
 type deadlock struct{}
 
+// processCrash: a goroutine other than the harness's main one died panicking.
+type processCrash struct{ p *panicState }
+
 // runSlice runs goroutine g until it blocks, finishes or yields.
 func (r *Run) runSlice(g *Goroutine) {
 	for !g.finished && g.blocked == nil {
@@ -430,6 +433,10 @@ func (r *Run) stepGoroutine(g *Goroutine, floor int) {
 	fr := g.stack[len(g.stack)-1]
 	if g.panic != nil {
 		r.unwindStep(g, fr, floor)
+		if g.finished && g.panic != nil && g.id != 1 && !r.inInit {
+			// an unrecovered panic in any goroutine terminates the process
+			panic(processCrash{g.panic})
+		}
 		return
 	}
 	if fr.unwinding {
